@@ -121,4 +121,12 @@ theorem donorRingCert_sound {lo hi : Nat} {d : Nat → Option Nat} (hle : lo ≤
       have := hk hij
       omega
 
+/-- a layout certificate contains the symmetry certificate of the gap adjacency -/
+theorem gapCert_sym {nasm nsc : Nat} {asmrow : Nat → List Nat} {sideLen : Nat → Nat → Nat} {nbr : Nat → Nat → Option Nat}
+    {own : Nat → Nat} {scadj : Nat → List Nat} (h : gapCert nasm nsc asmrow sideLen nbr own scadj = true) :
+    symCert nsc scadj = true := by
+  unfold gapCert at h
+  simp only [Bool.and_eq_true] at h
+  exact h.1.1.2
+
 end Dassh.Table
